@@ -888,7 +888,7 @@ fn doc_hash(d: &Doc) -> u64 {
 pub fn cmd(args: &Args) -> Report {
     let mut rep = Report::new("C18");
     let mut rng = Rng::new(args.stream_seed("c18"));
-    let cases = args.cases(48_000, 800_000);
+    let cases = args.cases(480_000, 6_400_000);
     let mut stop = false;
     for i in 0..cases {
         let doc = gen_doc(&mut rng);
